@@ -127,6 +127,8 @@ var c12Extra = []struct {
 	{"aggregates", "SELECT COUNT(*) AS c, SUM(a) AS s, MIN(a) AS mn, MAX(a) AS mx, AVG(a) AS av FROM t", false, false},
 	{"group-by", "SELECT b, COUNT(*) AS c, SUM(a) AS s, * FROM t GROUP BY b", false, false},
 	{"group-by-two", "SELECT b, a, COUNT(*) AS c FROM t GROUP BY b, a ORDER BY b, a", false, false},
+	{"group-by-two-many-groups", "SELECT n, h, COUNT(*) AS c, SUM(n) AS s FROM w GROUP BY n, h", false, false},
+	{"group-by-many-groups-star", "SELECT n, *, COUNT(*) AS c FROM w GROUP BY n", false, false},
 	{"join", "SELECT * FROM t x JOIN u y ON x.b = y.b", true, false},
 	{"left-join", "SELECT * FROM t x LEFT JOIN u y ON x.a < y.c", true, false},
 	{"hash-join-ordered", "SELECT `x.id` AS id, `y.c` AS c FROM t x HASH_JOIN u y ON x.b = y.b ORDER BY id, c", false, false},
@@ -213,6 +215,15 @@ func (p *c12) Describe(i int) any {
 	return map[string]any{"query": c.sql, "form@position": c.sig, "explored": fmt.Sprintf("3 documents; every map iteration order within %d deviation(s); schedules within 1 preemption for goroutine-spawning queries; executed twice in one process", p.bound)}
 }
 
+// manyGroups: 12 rows with 10 distinct values of n (and of (n, h)), two of them occurring twice.
+func manyGroups() []any {
+	rows := []any{}
+	for i := 0; i < 12; i++ {
+		rows = append(rows, map[string]any{"id": float64(i), "n": float64(i % 10), "h": float64(i%10%2 + 1)})
+	}
+	return rows
+}
+
 func c12Docs() []func() map[string]any {
 	row := func(id, a float64, b string, qs ...float64) map[string]any {
 		items := []any{}
@@ -227,6 +238,7 @@ func c12Docs() []func() map[string]any {
 				"t": []any{row(0, 1, "x", 1, 2), row(1, 2, "y"), row(2, 3, "x", 0)},
 				"u": []any{map[string]any{"b": "x", "c": 2.0}, map[string]any{"b": "y", "c": 3.0}, map[string]any{"b": "x", "c": 1.0}},
 				"m": []any{[]any{row(0, 1, "x", 1)}, []any{row(1, 2, "y"), row(2, 3, "x", 4)}},
+				"w": manyGroups(),
 			}
 		},
 		func() map[string]any {
